@@ -60,14 +60,12 @@ theorem blockScan_le (s : List Char) : blockScan s ≤ s.length := by
   fun_induction blockScan s <;> simp <;> omega
 
 /-- single-character tokens of the `match` in `advance_token` -/
-def singleKind (c : Char) : Option TK :=
-  if c = ':' then some .colon else if c = '@' then some .at else if c = '#' then some .hash
-  else if c = '~' then some .tilde else if c = '?' then some .question else if c = '+' then some .plus
-  else if c = '/' then some .slash else if c = '*' then some .star else if c = '&' then some .and
-  else if c = '|' then some .or else if c = '%' then some .percent else if c = '=' then some .eq
-  else if c = '{' then some .openBrace else if c = '}' then some .closeBrace
-  else if c = '(' then some .openParen else if c = ')' then some .closeParen
-  else if c = '.' then some .dot else none
+def singleTable : List (Char × TK) := [
+  (':', .colon), ('@', .at), ('#', .hash), ('~', .tilde), ('?', .question), ('+', .plus), ('/', .slash),
+  ('*', .star), ('&', .and), ('|', .or), ('%', .percent), ('=', .eq), ('{', .openBrace),
+  ('}', .closeBrace), ('(', .openParen), (')', .closeParen), ('.', .dot)]
+
+def singleKind (c : Char) : Option TK := (singleTable.find? (fun p => p.1 == c)).map (·.2)
 
 /-- `advance_token` after the first character `c` was bumped: the token kind and how many
     further characters of `rest` it consumes. -/
